@@ -36,6 +36,8 @@ pub struct Profile {
     pub durabilities: bool,
     /// never generate weak tombstones (also not inside batches / transactions)
     pub no_weak: bool,
+    /// a third of the values above the journal compression threshold sit at LZ4's break-even point (C15)
+    pub tie_values: bool,
     /// prefix every key with its keyspace index (disjoint key universes, C18)
     pub ks_prefix: bool,
 }
@@ -70,6 +72,7 @@ impl Profile {
             fronts: vec![0],
             durabilities: false,
             no_weak: false,
+            tie_values: false,
             ks_prefix: false,
         }
     }
@@ -166,7 +169,10 @@ impl Gen {
             }
         }
         .min(maxv);
-        let kind = u8::from(r.chance(1, 3));
+        let mut kind = u8::from(r.chance(1, 3));
+        if self.profile.tie_values && len >= 4_096 && r.chance(1, 3) {
+            kind = 2;
+        }
         self.counter += 1;
         Val {
             tag: self.counter,
